@@ -81,7 +81,8 @@ def rule_r1(chk, p, t):
             stores = [n for n in walk_no_nested(m.node) if isinstance(n, ast.Assign) and isinstance(n.targets[0], ast.Subscript) and unparse(n.targets[0].value) == "derivative"]
             pos_st = [n for n in stores if _slice_form(n.targets[0]) == POS]
             vel_st = [n for n in stores if _slice_form(n.targets[0]) == VEL]
-            if len(pos_st) != 1 or not (isinstance(pos_st[0].value, ast.Subscript) and unparse(pos_st[0].value.value) == st and _slice_form(pos_st[0].value) == VEL):
+            pos_rhs = inline_locals(m, pos_st[0].value) if len(pos_st) == 1 else None
+            if len(pos_st) != 1 or not (isinstance(pos_rhs, ast.Subscript) and unparse(pos_rhs.value) == st and _slice_form(pos_rhs) == VEL):
                 bad.append("derivative[pos] is not state[vel] of the same state")
             if len(vel_st) != 1:
                 bad.append("derivative[vel] is not assigned exactly once per state")
@@ -113,25 +114,16 @@ def rule_r1(chk, p, t):
             require(len(calls) == 1, "one solve_ivp call expected", m.node)
             c = calls[0]
             bad = []
-            y0 = unparse(c.args[2])
-            if not y0.endswith(".ravel()") and not y0.endswith(".flatten()"):
-                bad.append(f"initial state passed as `{y0}`")
-            f0 = unparse(c.args[0])
-            if "self._differentialEquation" not in f0:
-                bad.append(f"right-hand side `{f0}`")
+            if nm != "propagate":
+                y0 = unparse(inline_locals(m, c.args[2]))
+                if not y0.endswith(".ravel()") and not y0.endswith(".flatten()"):
+                    bad.append(f"initial state passed as `{y0}`")
+                f0 = unparse(inline_locals(m, c.args[0]))
+                if "self._differentialEquation" not in f0:
+                    bad.append(f"right-hand side `{f0}`")
             if nm == "propagate":
-                shp = [n for n in walk_no_nested(m.node) if isinstance(n, ast.Assign) and unparse(n.targets[0]) == "state_shape"]
-                if not (shp and unparse(shp[0].value) == f"{m.params[3]}.shape"):
-                    bad.append("saved shape")
-                exp2d = [n for n in walk_no_nested(m.node) if isinstance(n, ast.Assign) and unparse(n.value) == f"{m.params[3]}[:, None]"]
-                if not exp2d or (shp and exp2d[0].lineno > shp[0].lineno):
-                    bad.append("1-D input is not promoted to (6, 1) before the shape is saved")
-                rst = [n for n in walk_no_nested(m.node) if isinstance(n, ast.Assign) and unparse(n.targets[0]) == m.params[3] and "solution.y" in unparse(n.value)]
-                if not (rst and unparse(rst[0].value) == "solution.y[:, -1].reshape(state_shape)"):
-                    bad.append(f"restart state `{unparse(rst[0].value) if rst else None}` (expected the solver's last column reshaped to the saved shape)")
-                rets = [n for n in walk_no_nested(m.node) if isinstance(n, ast.Return)]
-                if not rets or canon(rets[-1].value) != canon(ast.parse(f"{m.params[3]}.flatten() if state_shape[1] == 1 else {m.params[3]}.reshape(state_shape)", mode="eval").body):
-                    bad.append(f"return `{unparse(rets[-1].value) if rets else None}`")
+                _facts, layout, _restart = propagate_loop_facts(m)
+                bad += layout
             else:
                 kws = {k.arg: unparse(k.value) for k in c.keywords}
                 if kws.get("t_eval") != m.params[1]:
@@ -348,3 +340,129 @@ def run(chk, p, t):
         except (Undecided, AnchorError) as e:
             rr = chk.rule(rid + ".x", fn.__name__, 0, "-")
             (rr.undecided if isinstance(e, Undecided) else rr.error)(fn.__name__, str(e))
+
+
+# ---------------------------------------------------------------------------------- restart loop of Celestial.propagate
+def propagate_loop_facts(prop):
+    """Symbolic reading of `Celestial.propagate`: prologue, the single restart loop, epilogue.  Returns a dict of facts
+    (expressions as text after abstraction of the solve_ivp call to `SOL`) and two complaint lists, `layout` (C03) and
+    `restart` (C15); raises Undecided when the function is not `prologue; while T < F: straight-line body; return`."""
+    from rsa.loopsum import abstract_call, block_env
+    from rsa.terms import NotEvaluable
+
+    body = [b for b in prop.node.body if not (isinstance(b, ast.Expr) and isinstance(b.value, ast.Constant))]
+    loops = [i for i, b in enumerate(body) if isinstance(b, ast.While)]
+    if len(loops) != 1:
+        raise Undecided("propagate: exactly one top-level restart loop expected", prop.node)
+    wi = loops[0]
+    W = body[wi]
+    try:
+        pro = block_env(body[:wi])
+        loop = block_env(W.body)
+    except NotEvaluable as e:
+        raise Undecided(f"propagate: {e}", prop.node)
+    tst = W.test
+    if not (isinstance(tst, ast.Compare) and len(tst.ops) == 1 and isinstance(tst.ops[0], ast.Lt) and isinstance(tst.left, ast.Name) and isinstance(tst.comparators[0], ast.Name)):
+        raise Undecided(f"propagate: loop condition `{unparse(tst)}` is not `time < final_time`", W)
+    T, F = tst.left.id, tst.comparators[0].id
+    p_t0, p_tf, p_x = prop.params[1], prop.params[2], prop.params[3]
+    layout, restart = [], []
+
+    def entry(name):
+        return unparse(pro[name]) if name in pro else name
+
+    if entry(T) != p_t0 or entry(F) != p_tf:
+        restart.append(f"the loop runs while `{entry(T)} < {entry(F)}`, not from the requested initial to the requested final time")
+    calls = {}
+    abstracted = {}
+    for k, v in loop.items():
+        a, found = abstract_call(v, "solve_ivp", "SOL")
+        abstracted[k] = a
+        for c in found:
+            calls[unparse(c)] = c
+    if len(calls) != 1:
+        raise Undecided(f"propagate: {len(calls)} distinct solve_ivp calls in the loop body (one expected)", W)
+    sol = next(iter(calls.values()))
+    kws = {k.arg: k.value for k in sol.keywords}
+    if len(sol.args) < 3:
+        raise Undecided("propagate: solve_ivp(fun, t_span, y0, ...) expected positionally", sol)
+    if "self._differentialEquation" not in unparse(sol.args[0]):
+        layout.append(f"right-hand side `{unparse(sol.args[0])[:60]}`")
+    if unparse(sol.args[1]) != f"({T}, {F})":
+        restart.append(f"t_span={unparse(sol.args[1])}")
+    y0 = sol.args[2]
+    X = None
+    if isinstance(y0, ast.Call) and isinstance(y0.func, ast.Attribute) and y0.func.attr in ("ravel", "flatten") and isinstance(y0.func.value, ast.Name):
+        X = y0.func.value.id
+    else:
+        layout.append(f"initial state passed as `{unparse(y0)[:60]}`")
+    ev = kws.get("events")
+    EV = unparse(ev) if ev is not None else None
+    if EV is None or "_prepEvents(" not in entry(EV):
+        restart.append(f"events={EV}: not the list prepared by _prepEvents")
+    # loop-carried time
+    inc = None
+    tnew = abstracted.get(T)
+    if tnew is None:
+        restart.append("the loop does not advance its time")
+    else:
+        ok_t = isinstance(tnew, ast.BinOp) and isinstance(tnew.op, ast.Add) and unparse(tnew.left) == "SOL.t[-1]"
+        if ok_t:
+            inc = tnew.right
+        else:
+            restart.append(f"restart time `{unparse(tnew)[:70]}` is not the time the solver stopped at plus an increment")
+    facts = dict(T=T, F=F, X=X, EV=EV, increment=inc, loop=W, solve=sol)
+    if X is not None:
+        xnew = abstracted.get(X)
+        xe = pro.get(X)
+        shape_names = [k for k, v in pro.items() if isinstance(v, ast.Attribute) and v.attr == "shape" and xe is not None and unparse(v.value) == unparse(xe)] + [k for k, v in pro.items() if isinstance(v, ast.Attribute) and v.attr == "shape" and xe is None and unparse(v.value) == X]
+        SHAPE = shape_names[0] if shape_names else None
+        facts["SHAPE"] = SHAPE
+        if SHAPE is None:
+            layout.append("saved shape")
+        # 1-D promotion of the state parameter before the shape is saved
+        promo = xe is not None and isinstance(xe, ast.IfExp) and unparse(xe.test) == f"len({p_x}.shape) == 1" and unparse(xe.body) == f"{p_x}[:, None]" and unparse(xe.orelse) == p_x
+        if not promo:
+            layout.append("1-D input is not promoted to (6, 1) before the shape is saved")
+        if xnew is None:
+            layout.append("restart state `None` (expected the solver's last column reshaped to the saved shape)")
+            restart.append("the loop does not carry the state from one round to the next")
+        else:
+            ap = xnew
+            ok_ap = isinstance(ap, ast.Call) and call_name(ap) == "_applyEvents"
+            if ok_ap:
+                aargs = {0: None, 1: None, 2: None}
+                for i, a in enumerate(ap.args):
+                    aargs[i] = a
+                for kname, idx in (("t_events", 0), ("events", 1), ("current_state", 2)):
+                    for kk in ap.keywords:
+                        if kk.arg == kname:
+                            aargs[idx] = kk.value
+                if not (aargs[0] is not None and unparse(aargs[0]) == "SOL.t_events" and aargs[1] is not None and unparse(aargs[1]) == EV):
+                    restart.append("_applyEvents arguments")
+                st = aargs[2]
+                want_st = f"SOL.y[:, -1].reshape({SHAPE})"
+                got_st = unparse(st).replace("[::, -1]", "[:, -1]") if st is not None else None
+                if got_st != want_st:
+                    layout.append(f"restart state `{got_st}` (expected the solver's last column reshaped to the saved shape)")
+                    restart.append(f"restart state `{got_st}`")
+            else:
+                restart.append(f"the state carried to the next round is `{unparse(xnew)[:70]}`, not _applyEvents(...) of the solver's last column")
+        # epilogue: flatten for a single state, saved shape otherwise
+        rets = []
+        for st in body[wi + 1 :]:
+            if isinstance(st, ast.Return) and st.value is not None:
+                if isinstance(st.value, ast.IfExp):
+                    rets.append((unparse(st.value.test), unparse(st.value.body)))
+                    rets.append((f"not ({unparse(st.value.test)})", unparse(st.value.orelse)))
+                else:
+                    rets.append((None, unparse(st.value)))
+            elif isinstance(st, ast.If) and len(st.body) == 1 and isinstance(st.body[0], ast.Return):
+                rets.append((unparse(st.test), unparse(st.body[0].value)))
+                if st.orelse and len(st.orelse) == 1 and isinstance(st.orelse[0], ast.Return):
+                    rets.append((f"not ({unparse(st.test)})", unparse(st.orelse[0].value)))
+        flat = [v for c, v in rets if c == f"{SHAPE}[1] == 1"]
+        other = [v for c, v in rets if c != f"{SHAPE}[1] == 1"]
+        if not (flat and flat[0] in (f"{X}.flatten()", f"{X}.ravel()") and other and other[0] == f"{X}.reshape({SHAPE})"):
+            layout.append(f"return `{rets}`")
+    return facts, layout, restart
